@@ -114,10 +114,10 @@ class ReqRun:
             return
         if ev == "peer_close":
             kw = {"s": kw["conn"], "how": kw["how"]}
-            done = self.__dict__.setdefault("_close_logged", set())
-            if kw["s"] in done:
-                return                                    # the full close that follows a half close is not a second event
-            done.add(kw["s"])
+            done = self.__dict__.setdefault("_close_logged", {})
+            if done.get(kw["s"]) == "rst" or done.get(kw["s"]) == kw["how"]:
+                return                                    # (only the reset that follows a half close is a second event)
+            done[kw["s"]] = kw["how"]
         if "s" in kw:
             # sessions are numbered in the order they were established: a TCP connection that the owner dropped before
             # its pair-verify finished never was a session of the request plane (and nothing is logged about it)
